@@ -105,11 +105,13 @@ func (t *Directive) Validate(root *Root) (errs []error) {
 			if a.Default != nil {
 				if defaultLoop(a.Type, a.Default, map[*InputField]bool{}) {
 					// Reported for the input object. Coercing it would never end.
-				} else if v, err := co.CoerceIn(a.Default); err != nil {
+				} else if v, err := co.CoerceIn(cloneValue(a.Default)); err != nil {
 					errs = append(errs, fmt.Errorf("%w at %d:%d", err, a.line, a.col))
-				} else {
+				} else if !isComposite(a.Default) {
 					// Might as well replace the coerced value since it is really
-					// what is needed. (Lists and maps can not be compared.)
+					// what is needed. A list or an object stays as declared,
+					// coercion completes it with the defaults the input types
+					// have at the time, which a load that is refused takes back.
 					a.Default = v
 				}
 			}
